@@ -280,7 +280,7 @@ def basis_wiring(ctx):
             ok = len(rec) == 1 and rec[0][0] is m and rec[0][1] is e and isinstance(b.dofs, Rec)
             ctx.fact("basis/dofs-wiring/%s" % type(e).__name__, fn, ok, "the basis must number its DOFs with Dofs(mesh, elem) of its own element (got %d constructions)" % len(rec),
                      clause="dofs is None  =>  self.dofs == Dofs(mesh, elem) for this mesh and THIS element object (subclasses of the mesh's own element type included)",
-                     backend="path-execution", replay=dict(kind="mesh_case", what="dofs", only="tri2", seed=0, tier="quick"))
+                     backend="path-execution", replay=dict(kind="basis_dofs", element=type(e).__name__, mesh=type(m).__name__))
             del rec[:]
             given = real(m, e)
             b2 = fem.CellBasis(m, e, dofs=given)
